@@ -87,7 +87,9 @@ class EnsembleAdapter:
         return e
 
     def view(self, i, fresh=False):
-        """conformer i (1-based); held objects are kept across calls so that liveness is exercised"""
+        """conformer i (1-based).  The object obtained first for a row (from ens[i] or from a slice) is kept for the
+        whole life of the ensemble - across append/extend, transformations, assignments - and is what observe() reads
+        and (7 times in 10) what the write actions write through; `fresh` takes a new ens[i]."""
         if fresh or (i not in self.views):
             v = self.e[i - 1]
             self.views.setdefault(i, v)
@@ -160,13 +162,13 @@ class EnsembleAdapter:
             self._drop()
             self.src, self.e = e, self.CE(e)
         elif a == "append":
-            self._drop()
+            self.its = {}                 # running iterations are abandoned; every conformer already held is KEPT
             e.append(self.mol(act["m"]))
         elif a == "extlist":
-            self._drop()
+            self.its = {}
             e.extend([self.mol(m) for m in act["ms"]])
         elif a == "extens":
-            self._drop()
+            self.its = {}
             e.extend(e if act["how"] == "self" else self.ens_from(act["o"]))
         elif a == "scale":
             e.scale(act["f"])
@@ -193,13 +195,19 @@ class EnsembleAdapter:
         elif a == "str":
             self.src.translate(self.cf(act["v"]))
         elif a == "vwc":
-            self.view(act["i"], self.rnd.random() < 0.5).coords = self.cf(act["row"])
+            self.view(act["i"], self.rnd.random() < 0.3).coords = self.cf(act["row"])
         elif a == "vwq":
-            self.view(act["i"], self.rnd.random() < 0.5).atomic_charges = self.qf(act["row"])
+            self.view(act["i"], self.rnd.random() < 0.3).atomic_charges = self.qf(act["row"])
         elif a == "vsa":
-            self.view(act["i"], self.rnd.random() < 0.5).coords[int(act["b"]) - 1] = self.cf(act["p"])
+            self.view(act["i"], self.rnd.random() < 0.3).coords[int(act["b"]) - 1] = self.cf(act["p"])
         elif a == "vtr":
-            self.view(act["i"], self.rnd.random() < 0.5).translate(self.cf(act["v"]))
+            self.view(act["i"], self.rnd.random() < 0.3).translate(self.cf(act["v"]))
+        elif a == "asc":
+            e.coords = self.cf(act["X"])
+        elif a == "asq":
+            e.atomic_charges = self.qf(act["X"])
+        elif a == "asw":
+            e.weights = self.qf(act["X"])
         elif a == "setw":
             e.weights[int(act["i"]) - 1] = act["w"] / 1e3
         elif a == "start":
@@ -354,7 +362,7 @@ class History:
                                 "scale", "invert", "translate", "rotate", "center", "rotstack", "rotstack", "trstack"] \
             + ["next"] * (6 if self.ad.its else 0) + ["collect"] * 2 + (["hwc", "hwq"] * 3 if any(self.ad.held.values()) else []) + (["swc", "swq", "ssw", "str"] * 2 if self.ad.src is not None else [])
         if n:
-            ops += ["vwc", "vwq", "vsa", "vtr", "setw", "cdump", "cser"] * 2
+            ops += ["vwc", "vwq", "vsa", "vtr", "setw", "cdump", "cser"] * 2 + ["asc", "asq", "asw"]
         op = r.choice(ops)
         m_same = lambda: dict(self.rmol(na if na else None), **({} if not na else {"nb": int(e.n_bonds)}))
         if op == "append" and can_grow:
@@ -433,6 +441,12 @@ class History:
             self.do({"act": "vsa", "i": r.randint(1, n), "b": r.randint(1, na), "p": self.coord()})
         elif op == "vtr" and self.maxabs() < LIMIT // 2:
             self.do({"act": "vtr", "i": r.randint(1, n), "v": self.coord()})
+        elif op == "asc":
+            self.do({"act": "asc", "X": [self.rmol(na)["g"] for _ in range(n)]})
+        elif op == "asq":
+            self.do({"act": "asq", "X": [self.rmol(na)["q"] for _ in range(n)]})
+        elif op == "asw":
+            self.do({"act": "asw", "X": [r.randint(1, 4000) for _ in range(n)]})
         elif op == "setw":
             self.do({"act": "setw", "i": r.randint(1, n), "w": r.randint(1, 4000)})
         elif op == "cdump":
